@@ -533,3 +533,13 @@ def nulldata_guard(ctx):
     ctx.require(res['OP_RETURN'] is True, q, 'after OP_RETURN the guard evaluates to %s: the payload goes on to the nested-script parse' % res['OP_RETURN'], tests[0],
                 'an OP_RETURN payload whose bytes parse as a script (e.g. 5152535455) is replaced by a nested command list: the type is no longer nulldata and serialize() differs or raises')
     ctx.require(res['OP_DUP'] is False, q, 'the guard is true although the previous command is not OP_RETURN', tests[0])
+
+
+@PROP.obligation('C18.serialisers-fresh', canaries=[
+    mut.insert_before('scripts', 'Script.serialize', "raw = b''", 'if self._raw:\n    return self._raw', 'Script.serialize answers with the bytes stored earlier'),
+])
+def serialisers_fresh(ctx):
+    """Script.serialize / serialize_list (and the transaction serialisers) re-encode the current commands: they never answer with the bytes
+    stored by parse or by `+` (Script._raw), which nothing invalidates when the commands change."""
+    from .common_fresh import serialisers_fresh as run
+    run(ctx)
